@@ -188,9 +188,17 @@ func DecodeHintRecord(buf []byte) ([]byte, *DataPos) {
 }
 
 func DecodeChunk(block []byte) ([]byte, ChunkType, error) {
+	// 头部不完整 (如文件末尾被截断), 视为损坏
+	if len(block) < chunkHeaderSize {
+		return nil, 0, ErrInvalidCRC
+	}
 	// length
 	length := binary.LittleEndian.Uint16(block[4:6])
 	start, end := chunkHeaderSize, chunkHeaderSize+uint32(length)
+	// 长度字段尚未经过校验, 使用前必须确认未超出可读范围
+	if end > uint32(len(block)) {
+		return nil, 0, ErrInvalidCRC
+	}
 	checksum := crc32.ChecksumIEEE(block[4:end])
 	savedSum := binary.LittleEndian.Uint32(block[:4])
 	if savedSum != checksum {
